@@ -296,7 +296,38 @@ class Gen:
         return x
 
     def g_add(self, dtype, shape, depth): return self._nary('add', dtype, shape, depth)
-    def g_mul(self, dtype, shape, depth): return self._nary('mul', dtype, shape, depth)
+
+    def g_mul(self, dtype, shape, depth):
+        if len(shape) >= 2 and dtype != 'bool' and self.boolean(0.3):
+            return self.outer_product(dtype, shape, depth)
+        return self._nary('mul', dtype, shape, depth)
+
+    def outer_product(self, dtype, shape, depth):
+        """product of factors that live on disjoint axes (inserted elsewhere), optionally coupled by a full factor, in every association
+        order: the sparse expansion of a product clusters its factors by the axes they really occupy"""
+        nd = len(shape)
+        k = self.integers(1, nd - 1)
+        def on_axes(keep):
+            # an operand with real axes `keep`, the others inserted
+            node = self.gen(dtype, [shape[i] for i in keep], min(depth, 2), 'insertaxis')
+            present = list(keep)
+            for i in range(nd):
+                if i not in keep:
+                    pos = sum(1 for j in present if j < i)
+                    node = self.emit('insertaxis', [node], dict(axis=pos), dtype, [shape[j] for j in sorted(present + [i])])
+                    present.append(i)
+            return node
+        axes = list(self.draw(st.permutations(list(range(nd)))))
+        a = on_axes(sorted(axes[:k])); b = on_axes(sorted(axes[k:]))
+        factors = [a, b]
+        if self.boolean(0.85):
+            factors.append(self.gen(dtype, shape, min(depth, 2), 'mul'))
+        order = list(self.draw(st.permutations(factors))) if self.boolean(0.6) else factors      # the disjoint factors first and the coupling one last is the order in which clusters have to be bridged
+        node = order[0]
+        left = self.boolean(0.7)
+        for f in order[1:]:
+            node = self.emit('mul', [node, f] if left else [f, node], {}, dtype, shape)
+        return node
     def g_sub(self, dtype, shape, depth): return self._nary('sub', dtype, shape, depth)
     def g_neg(self, dtype, shape, depth): return self._nary('neg', dtype, shape, depth, 1)
     def g_not(self, dtype, shape, depth): return self._nary('not', dtype, shape, depth, 1)
@@ -725,6 +756,13 @@ def _arr(vals, dtype, shape):
     return a.reshape(shape)
 
 
+def _det_cofactor(a, nn):
+    if nn == 2: return a[..., 0, 0] * a[..., 1, 1] - a[..., 0, 1] * a[..., 1, 0]
+    return (a[..., 0, 0] * (a[..., 1, 1] * a[..., 2, 2] - a[..., 1, 2] * a[..., 2, 1])
+            - a[..., 0, 1] * (a[..., 1, 0] * a[..., 2, 2] - a[..., 1, 2] * a[..., 2, 0])
+            + a[..., 0, 2] * (a[..., 1, 0] * a[..., 2, 1] - a[..., 1, 1] * a[..., 2, 0]))
+
+
 class Ref:
     def __init__(self, prog, smooth=False):
         self.smooth = smooth   # also reject points where a composed operator is not differentiable (C04)
@@ -928,10 +966,15 @@ class Ref:
             nn = a.shape[-1]
             # cofactor expansion (exact on dyadic data, unlike LU)
             if nn == 1: return a[..., 0, 0]
-            if nn == 2: return a[..., 0, 0] * a[..., 1, 1] - a[..., 0, 1] * a[..., 1, 0]
-            return (a[..., 0, 0] * (a[..., 1, 1] * a[..., 2, 2] - a[..., 1, 2] * a[..., 2, 1])
-                    - a[..., 0, 1] * (a[..., 1, 0] * a[..., 2, 2] - a[..., 1, 2] * a[..., 2, 0])
-                    + a[..., 0, 2] * (a[..., 1, 0] * a[..., 2, 1] - a[..., 1, 1] * a[..., 2, 0]))
+            if a.dtype.kind in 'fc' and a.size:
+                # a (nearly) singular floating point matrix: the LU determinant carries a rounding error of eps*|rows| that the exact
+                # cofactor value (0) does not show and that later operations amplify: ill-conditioned, not a statement about values
+                had = numpy.prod(numpy.sqrt((abs(a) ** 2).sum(-1)), axis=-1)
+                d = _det_cofactor(a, nn)
+                if ((abs(d) < 1e-6 * had) & (had > 1e3)).any():
+                    raise NonFinite('determinant of a nearly singular matrix with large entries')
+                return d
+            return _det_cofactor(a, nn)
         if op == 'inv':
             a = C(0) + p['shift'] * numpy.eye(shape[-1])
             try:
